@@ -1,5 +1,35 @@
-(* C07 placeholder: theorems are added below as they are proved. *)
-From VV Require Import VFile.
+(* C07  After any seek the reported position matches the audio delivered.
+   Model: VFile.v (position bookkeeping of lib/vorbisfile.c on the page table).
+   Proved so far: the consuming step of every read advances the position by
+   exactly the samples returned (times two under half-rate) and touches nothing
+   else; what remains pending shrinks by that count.  The full refinement
+   (position = index of the next sample of the linear decode after ANY history)
+   is established per run by the tie and the bit-exact oracle, not yet by proof:
+   see DESIGN.md section 4 (C07). *)
+From VV Require Import Blocking VFile VFile_lemmas VFileDemo.
 Local Open Scope Z_scope.
-Theorem C07_read_advances_by_count_stub : forall n h : Z, Z.shiftl n h = n * 2 ^ h \/ h < 0.
-Proof. intros n h. destruct (Z.ltb_spec h 0); [right; lia|left; apply Z.shiftl_mul_pow2; lia]. Qed.
+
+Theorem C07_read_advances_by_count_partial :
+  forall f s len, v_rs s = INITSET -> 0 < dec_pcmout (v_dec s) ->
+    let avail := dec_pcmout (v_dec s) in
+    let n := if avail >? len then len else avail in
+    exists s', read_float (S f) s len = (n, v_link s, s') /\
+               v_pcm s' = v_pcm s + Z.shiftl n (v_hs s) /\
+               v_link s' = v_link s /\ v_rem s' = v_rem s /\ v_q s' = v_q s /\
+               v_dec s' = snd (dec_read (v_dec s) n) /\ v_hs s' = v_hs s /\ v_rs s' = v_rs s.
+Proof. exact read_consumes. Qed.
+Print Assumptions C07_read_advances_by_count_partial.
+
+Theorem C07_pending_shrinks_by_count :
+  forall d n, 0 <= n <= dec_pcmout d -> 0 < dec_pcmout d ->
+    dec_pcmout (snd (dec_read d n)) = dec_pcmout d - n.
+Proof. exact dec_read_pcmout. Qed.
+Print Assumptions C07_pending_shrinks_by_count.
+
+(* non-vacuity: a two-link page table on which the model seeks and reads *)
+Example C07_demo_runs :
+  pcm_total demo = 428 /\ v_pcm demo = 0 /\
+  (let '(r, _, s1) := read_float (read_fuel demo) demo 1000 in r = 32 /\ v_pcm s1 = 32) /\
+  (let '(r, s1) := pcm_seek demo 310 in r = 0 /\ v_pcm s1 = 310 /\ v_link s1 = 1) /\
+  (let '(r, s1) := raw_seek demo 180 in r = 0 /\ v_pcm s1 = 176).
+Proof. vm_compute. repeat split; reflexivity. Qed.
